@@ -1,13 +1,13 @@
 #!/bin/bash
-# tools/takeseed.sh <prop> <worktree> : copy a seed author's delivery (A,B -> C,D) into /verif/seeded, drop the worktree, run both against the property's check
-P=$1; WT=$2
+# tools/takeseed.sh <prop> <worktree> : copy a seed author's delivery (A,B -> C,D or the letters given) into /verif/seeded, drop the worktree, run both against the property's check
+P=$1; WT=$2; LA=${3:-C}; LB=${4:-D}
 cd /verif
-mkdir -p seeded/$P-C seeded/$P-D seeded/preexisting
-cp -r $WT/_seed/A/. seeded/$P-C/ && cp -r $WT/_seed/B/. seeded/$P-D/
-for f in $WT/_seed/preexisting*; do [ -e "$f" ] && cp -r $f seeded/preexisting/$P-$(basename $f); done
+mkdir -p seeded/$P-$LA seeded/$P-$LB seeded/preexisting
+cp -r $WT/_seed/A/. seeded/$P-$LA/ && cp -r $WT/_seed/B/. seeded/$P-$LB/
+for f in $WT/_seed/preexisting*; do [ -e "$f" ] && cp -r $f seeded/preexisting/$P-$LA-$(basename $f); done
 git -C /repo worktree remove --force $WT
-for id in $P-C $P-D; do
+for id in $P-$LA $P-$LB; do
   (tools/seedrun.sh $P /verif/seeded/$id > /tmp/seed3_$id.log 2>&1) &
 done
 wait
-for id in $P-C $P-D; do echo "## $id"; grep -v "conda\|httpx\|_compat\|^KNOWN" /tmp/seed3_$id.log | grep "demo_\|passed\|^VIOLATION\|^$P \[\|^UNDECIDED\|PATCH\|CHECKER" | cut -c1-220 | head -12; done
+for id in $P-$LA $P-$LB; do echo "## $id"; grep -v "conda\|httpx\|_compat\|^KNOWN" /tmp/seed3_$id.log | grep "demo_\|passed\|^VIOLATION\|^$P \[\|^UNDECIDED\|PATCH\|CHECKER" | cut -c1-220 | head -12; done
